@@ -225,6 +225,7 @@ LEVEL_TEXT = (
     "Bounded-exhaustive enumeration of (grid-family ladder x degree x kind x process x scheme x PTO) cells: per cell the real runs on coarse, medium and fine grids (plus the neighbouring degree on the fine grid) at a common "
     "x lattice that contains bulk points, a coarse-grid node with its 1e-9 and 1e-6 neighbours, and the mid-points of the last two coarse areas; for three smooth PDF families and every perturbative order the sup-norm "
     "errors must shrink under refinement (and stay below absolute bounds), neighbouring degrees must agree, and the value at a node must be continuous."
+    " Continuity is also demanded at the smallest node (a legal request) on every grid of a family."
 )
 LEVEL_NOTE = "This is an accuracy bound with measured margins, not an identity; grids, PDFs and x outside the stated families are not covered. Trusted: eko's grid generators (only to produce the ladders)."
 TECHNIQUE = "bounded-exhaustive enumeration of grid-refinement ladders with a convergence (sup-norm) oracle between runs"
